@@ -297,6 +297,41 @@ async def sc_tunnel(loop: Any, env: Env) -> None:
     await asyncio.sleep(7.0)
 
 
+async def sc_tunnel_exit(loop: Any, env: Env) -> None:
+    """
+    The observed node is nothing but the exit of one other node's one-hop circuit: data goes out and comes back, then the
+    originator destroys the circuit - for remove_tunnel_delay seconds the exit socket lingers, on its way out.
+    """
+    from ipv8.messaging.anonymization.community import TunnelCommunity
+    allf = {RELAY, EXIT_BT, EXIT_IPV8, SPEED}
+    nodes = [env.node() for _ in range(2)]
+    for nd in nodes:
+        nd.flags = allf
+        ov = nd.add(TunnelCommunity)
+        ov.settings.peer_flags = set(allf)
+    know(nodes[0], nodes[1], 0, sorted(allf))
+    know(nodes[1], nodes[0], 0, sorted(allf))
+    env.target(nodes[0], nodes[0].overlay)
+    random.seed(9)
+    ov = nodes[1].overlay
+    c = ov.create_circuit(1)
+    await asyncio.sleep(0.3)
+    if c is not None and c.state == "READY":
+        ov.send_data(c.hop.address, c.circuit_id, ("6.6.6.6", 6666), ("0.0.0.0", 0), b"d3:abce")
+        await asyncio.sleep(0.2)
+        for t in loop.transports:
+            if t.sent and not t.closed and t.local_addr[0] == "0.0.0.0":
+                t.inject(b"d6:answere", t.sent[0][1])
+        await asyncio.sleep(1.0)
+        ov.remove_circuit(c.circuit_id, "done", destroy=True)
+    await asyncio.sleep(2.0)
+    # late answers from outside while the exit socket lingers
+    for t in loop.transports:
+        if t.sent and not t.closed and t.local_addr[0] == "0.0.0.0":
+            t.inject(b"d4:latee", t.sent[0][1])
+    await asyncio.sleep(6.0)
+
+
 async def sc_hidden(loop: Any, env: Env) -> None:
     """
     Hidden services: the observed node seeds a swarm (introduction point, rendezvous, e2e link, data both ways).
@@ -478,6 +513,7 @@ SCENARIOS: dict[str, Callable] = {
     "dht": sc_dht,
     "tunnel": sc_tunnel,
     "tunnel_no6": sc_tunnel,
+    "tunnel_exit": sc_tunnel_exit,
     "hidden": sc_hidden,
     "service0": sc_service,
     "service1": sc_service,
@@ -492,7 +528,7 @@ SCENARIOS: dict[str, Callable] = {
 
 
 # scenarios used as traffic corpus by C01 / C03 (the three service variants produce the same kinds of datagrams)
-CORPUS_SCENARIOS = [n for n in SCENARIOS if n not in ("service1", "service2", "service3", "service4", "service5", "tunnel_no6")]
+CORPUS_SCENARIOS = [n for n in SCENARIOS if n not in ("service1", "service2", "service3", "service4", "service5", "tunnel_no6", "tunnel_exit")]
 
 
 async def run_scenario(loop: Any, name: str, env: Env | None = None) -> Env:
